@@ -66,6 +66,22 @@ for ty in ('Fq2', 'Fq4', 'Fq12'):
     add(low + '::is_zero', f, r'<impl>::is_zero$', r'^\(&%s\) -> bool$' % T, at, c1,
         lambda A, a: all(x == 0 for x in A.leaves(a)), 'bool', pr, (low + '::is_zero', [ty], 'bool'), post=is_zero_post)
 
+    # is_one: only present when a type overrides the default of num_traits::One (`*self == Self::one()`); if it is present it must
+    # still decide equality with one (callers such as G::to_affine go through the trait contract)
+    def is_one_post(case, st, ret, interp, ty=ty):
+        x = unref(interp, st, case.args[0])
+        d = SYM.eq_components(ty, x, SYM.one(ty, x))
+        allz = all(st.facts.is_zero(p) for p in d)
+        somenz = any(st.facts.is_nonzero(p) for p in d)
+        if ret[1] and not allz:
+            raise Violation("is_one returned true for a value not known to equal one")
+        if (not ret[1]) and not somenz:
+            raise Violation("is_one returned false for a value not known to differ from one")
+        return [('post', [])]
+    add(low + '::is_one', f, r'<impl>::is_one$', r'^\(&%s\) -> bool$' % T, at, c1,
+        lambda A, a, ty=ty: A.leaves(a) == A.leaves(A.one(ty)), 'bool', pr, None, post=is_one_post)
+    SPECS[-1].optional = True
+
     # derived == : structural equality of all coordinates
     def eq_post(case, st, ret, interp, ty=ty):
         a = unref(interp, st, case.args[0]); b = unref(interp, st, case.args[1])
